@@ -36,13 +36,19 @@ type PlatformLevel struct {
 	// SgxShape / TdxShape deform the component list of the level: "" (16 entries), "absent" (member missing),
 	// "empty" ([]), "null", "short" (15 entries), "long" (17 entries), "one" (1 entry)
 	SgxShape, TdxShape string
+	// TdxTypes / SgxTypes label single components the way the PCS does ("category" and "type" members next to "svn"):
+	// informational text, no part of the comparison. "" = no label.
+	TdxTypes, SgxTypes [16]string
 }
 
 // Malformed tells whether a component list of the level is not a list of 16 entries.
 func (l PlatformLevel) Malformed() bool { return l.SgxShape != "" || l.TdxShape != "" }
 
-func compsShaped(key string, v [16]byte, shape string) string {
+func compsShaped(key string, v [16]byte, shape string, types ...[16]string) string {
 	full := comps(v)
+	if len(types) == 1 {
+		full = compsLabelled(v, types[0])
+	}
 	switch shape {
 	case "absent":
 		return ""
@@ -116,14 +122,20 @@ func js(v string) string {
 
 func ts(t time.Time) string { return t.UTC().Format("2006-01-02T15:04:05Z") }
 
-func comps(v [16]byte) string {
+func comps(v [16]byte) string { return compsLabelled(v, [16]string{}) }
+
+func compsLabelled(v [16]byte, types [16]string) string {
 	var sb strings.Builder
 	sb.WriteString("[")
 	for i, c := range v {
 		if i > 0 {
 			sb.WriteString(",")
 		}
-		fmt.Fprintf(&sb, `{"svn":%d}`, c)
+		if types[i] != "" {
+			fmt.Fprintf(&sb, `{"svn":%d,"category":%s,"type":%s}`, c, js(map[bool]string{true: "BIOS", false: "OS/VMM"}[i%2 == 0]), js(types[i]))
+		} else {
+			fmt.Fprintf(&sb, `{"svn":%d}`, c)
+		}
 	}
 	sb.WriteString("]")
 	return sb.String()
@@ -154,9 +166,9 @@ func (d *TcbInfoDoc) Render() []byte {
 		if i > 0 {
 			sb.WriteString(",")
 		}
-		tdx := compsShaped("tdxtcbcomponents", l.Tdx, l.TdxShape)
+		tdx := compsShaped("tdxtcbcomponents", l.Tdx, l.TdxShape, l.TdxTypes)
 		fmt.Fprintf(&sb, `{"tcb":{%s"pcesvn":%d%s},"tcbDate":%q,"tcbStatus":%q}`,
-			compsShaped("sgxtcbcomponents", l.Sgx, l.SgxShape), l.PceSvn, strings.TrimSuffix(","+tdx, ","), dateOr(l.Date), l.Status)
+			compsShaped("sgxtcbcomponents", l.Sgx, l.SgxShape, l.SgxTypes), l.PceSvn, strings.TrimSuffix(","+tdx, ","), dateOr(l.Date), l.Status)
 	}
 	sb.WriteString("]}")
 	return []byte(sb.String())
